@@ -123,6 +123,7 @@ type genAttr struct {
 }
 
 var adNames = []string{"A", "Bb", "Cpus", "Memory", "Requirements", "Rank", "x_1", "Owner", "Cmd", "Args", "Env", "JobStatus", "Machine", "Arch", "OpSys", "LoadAvg", "Name", "State", "Activity", "Start", "ZKMode", "ZKM", "ZK"}
+var adTypeNames = []string{"My Type", " lead", "trail ", "Größe", "日本語", "Ma\u00e7hine", "t\tab", strings.Repeat("L", 41), strings.Repeat("é", 40), strings.Repeat("x", 127), strings.Repeat("x", 128), "a.b-c_d/e:f", "UPPER", "lower", "MiXeD"}
 var adPrivate = []string{"ClaimId", "Capability", "claimid", "_condor_privFoo", "TransferKey"}
 
 func genString(c *Ctx) string {
@@ -242,7 +243,7 @@ func genAd(c *Ctx, withPrivate bool) []genAttr {
 			add(adPrivate[c.Rng.Intn(len(adPrivate))], ast.QuoteString("<secret-"+genString(c)+">"))
 		}
 	}
-	switch c.Rng.Intn(4) {
+	switch c.Rng.Intn(6) {
 	case 0:
 		add("MyType", `"Machine"`)
 		add("TargetType", `"Job"`)
@@ -250,6 +251,12 @@ func genAd(c *Ctx, withPrivate bool) []genAttr {
 		add("MyType", `"Job"`)
 	case 2:
 		add("TargetType", ast.QuoteString("T"+strings.Repeat("y", c.Rng.Intn(5))))
+	case 3:
+		// type names with a blank, non-ASCII, longer than 40 characters, up to the 128 the raw reader admits
+		add("MyType", ast.QuoteString(adTypeNames[c.Rng.Intn(len(adTypeNames))]))
+		if c.Rng.Intn(2) == 0 {
+			add("TargetType", ast.QuoteString(adTypeNames[c.Rng.Intn(len(adTypeNames))]))
+		}
 	}
 	c.Rng.Shuffle(len(out), func(i, j int) { out[i], out[j] = out[j], out[i] })
 	return out
@@ -273,6 +280,7 @@ type adResult struct {
 	rest   string
 	errc   string
 	ad     map[string]string // canonical attribute map (getad)
+	names  []string          // attribute names exactly as the reconstructed ad holds them, sorted (getad, getadcap)
 	raw    string
 	frames []recFrame
 	srcErr string
@@ -291,6 +299,18 @@ func canonAd(ad *classad.ClassAd) map[string]string {
 	return m
 }
 
+// exactNames: the attribute names of an ad with the case the ad holds them in, sorted.
+func exactNames(ad *classad.ClassAd) []string {
+	var ns []string
+	if a := ad.AST(); a != nil {
+		for _, at := range a.Attributes {
+			ns = append(ns, at.Name)
+		}
+	}
+	sort.Strings(ns)
+	return ns
+}
+
 func showAdMap(m map[string]string) string {
 	var ks []string
 	for k := range m {
@@ -307,7 +327,12 @@ func showAdMap(m map[string]string) string {
 
 // runReceiver runs one receiver over a message and then drains the rest of the message.
 func runReceiver(kind string, m *message.Message) (res adResult) {
+	return runReceiverCap(kind, m, 0)
+}
+
+func runReceiverCap(kind string, m *message.Message, cap int) (res adResult) {
 	res.kind = kind
+	res.unread = cap
 	var err error
 	func() {
 		defer func() {
@@ -321,6 +346,7 @@ func runReceiver(kind string, m *message.Message) (res adResult) {
 			ad, err = m.GetClassAd(bg)
 			if err == nil {
 				res.ad = canonAd(ad)
+				res.names = exactNames(ad)
 				res.reply = showAdMap(res.ad)
 				// The application owns the ad it received and may change it. What it does to THIS ad
 				// must not show in any ad decoded later (the same texts are decoded again and again
@@ -334,6 +360,16 @@ func runReceiver(kind string, m *message.Message) (res adResult) {
 						}
 					}
 				}
+			}
+		case "getadcap":
+			// the bounded reader every handshake uses, with a cap the ad fits under (res.unread carries the cap in)
+			var ad *classad.ClassAd
+			ad, err = m.GetClassAdWithMaxSize(bg, res.unread)
+			res.unread = 0
+			if err == nil {
+				res.ad = canonAd(ad)
+				res.names = exactNames(ad)
+				res.reply = showAdMap(res.ad)
 			}
 		case "getraw":
 			var t string
@@ -655,7 +691,11 @@ func (w *adwire) honest(idx int) {
 	wire := ca.TakeOut()
 	// sender correspondence: the frames the message layer flushed, and under which crypto state
 	{
-		op := fmt.Sprintf("putmsg %s %s %s %s", b01(mode == modeEnc), b01(mode != modePlain), hexOrDash([]byte(myType)), hexOrDash([]byte(targetType)))
+		opName := "putmsg"
+		if sender == 3 {
+			opName = "putmsgb" // PutClassAdRawBytes: expressions through PutStringBytes (its own frame boundaries for ≥ one-frame expressions)
+		}
+		op := fmt.Sprintf("%s %s %s %s %s", opName, b01(mode == modeEnc), b01(mode != modePlain), hexOrDash([]byte(myType)), hexOrDash([]byte(targetType)))
 		for i, e := range sentExprs {
 			k := "p:"
 			if sender == 1 && isPrivName(lines[i].name) {
@@ -689,7 +729,7 @@ func (w *adwire) honest(idx int) {
 	ops = append(ops, senderOps...)
 	var real []string
 	for _, o := range senderOps {
-		if strings.HasPrefix(o, "putmsg") {
+		if strings.HasPrefix(o, "putmsg") { // (putmsg and putmsgb)
 			real = append(real, senderReal)
 		} else {
 			real = append(real, "")
@@ -723,6 +763,60 @@ func (w *adwire) honest(idx int) {
 			w.violate("C08:reconstructed-ad-differs:"+adDiffKey(expect, g.ad), label+": the reconstructed ad is not what the parser reads from the sender's rendered text", ops, showAdMap(expect), showAdMap(g.ad))
 		}
 	}
+	// clause 1, attribute names: "exactly the sender's attributes" — ClassAd names are looked up
+	// case-insensitively but an ad keeps the spelling it was given; the receiver's ad must hold the
+	// sender's spelling (case-insensitive matching is used here only to find the two type names,
+	// which the receiver writes as MyType / TargetType)
+	var wantNames []string
+	{
+		seen := map[string]bool{}
+		for _, l := range lines {
+			lc := strings.ToLower(l.name)
+			if (lc == "mytype" && myType != "") || (lc == "targettype" && targetType != "") || seen[lc] {
+				continue
+			}
+			seen[lc] = true
+			wantNames = append(wantNames, l.name)
+		}
+		if myType != "" {
+			wantNames = append(wantNames, "MyType")
+		}
+		if targetType != "" {
+			wantNames = append(wantNames, "TargetType")
+		}
+		sort.Strings(wantNames)
+	}
+	if g := rs[0]; g.errc == "" && strings.Join(g.names, "\x00") != strings.Join(wantNames, "\x00") {
+		w.violate("C08:attribute-names-differ:getad", label+": the reconstructed ad does not hold the sender's attribute names as the sender spelled them", ops, strconv.QuoteToASCII(strings.Join(wantNames, " ")), strconv.QuoteToASCII(strings.Join(g.names, " ")))
+	}
+	// the capped receiver (what every handshake uses), with a cap the ad fits under: the same ad —
+	// attributes, spelling of names, MyType, TargetType — and the same bytes left
+	{
+		content := len(myType) + len(targetType) + 2
+		for _, e := range sentExprs {
+			content += len(e) + 1 + 4 // (+ a secret marker in front of it, in the keyed-clear mode)
+		}
+		cap := []int{content + 64, 2*content + 4096, 1 << 24}[c.Rng.Intn(3)]
+		sb, cb := newAdStream(mode)
+		cb.Feed(wire)
+		g := runReceiverCap("getadcap", message.NewMessageFromStream(&recStream{Stream: sb}), cap)
+		g.unread = len(cb.In)
+		capOps := append(append([]string{}, ops...), fmt.Sprintf("# then, on the same wire: GetClassAdWithMaxSize(%d) (ad content %d bytes)", cap, content))
+		switch {
+		case g.errc != "":
+			w.violate("C08:capped-receiver-rejects-fitting-ad", label+": GetClassAdWithMaxSize failed on an honest ad that fits its cap", capOps, "ok", g.reply)
+		case rs[0].errc == "":
+			if showAdMap(g.ad) != showAdMap(rs[0].ad) || strings.Join(g.names, "\x00") != strings.Join(rs[0].names, "\x00") {
+				w.violate("C08:capped-receiver-differs:"+adDiffKey(rs[0].ad, g.ad), label+": GetClassAdWithMaxSize reconstructs another ad than GetClassAd from the same bytes", capOps,
+					showAdMap(rs[0].ad)+" names="+strconv.QuoteToASCII(strings.Join(rs[0].names, " ")), showAdMap(g.ad)+" names="+strconv.QuoteToASCII(strings.Join(g.names, " ")))
+			}
+			if g.rest != rs[0].rest || g.unread != rs[0].unread {
+				w.violate("C08:receivers-consume-different-bytes:getad-vs-getadcap", label+": the capped and the uncapped parsing receiver leave different bytes unread", capOps,
+					fmt.Sprintf("getad leaves %s (conn %d)", rs[0].rest, rs[0].unread), fmt.Sprintf("getadcap leaves %s (conn %d)", g.rest, g.unread))
+			}
+		}
+		c.Count("honest:capped-receiver")
+	}
 	// clause 1b: the raw text is the rendered expression strings, one per line, then the type names
 	if g := rs[1]; g.errc == "" {
 		var want strings.Builder
@@ -735,7 +829,55 @@ func (w *adwire) honest(idx int) {
 		if targetType != "" {
 			want.WriteString("TargetType = " + strconv.Quote(targetType) + "\n")
 		}
-		if g.raw != want.String() {
+		if sender < 2 {
+			// the sender rendered the ad itself: neither the order of the attributes nor the blanks
+			// around '=' are fixed by the property — the lines are read back (name up to the first
+			// '=', value through the parser) and compared as a set with what the sender's ad holds
+			got := map[string]string{}
+			bad := ""
+			for _, ln := range strings.Split(strings.TrimSuffix(g.raw, "\n"), "\n") {
+				if ln == "" && g.raw == "" {
+					continue
+				}
+				eq := strings.Index(ln, "=")
+				if eq < 0 {
+					bad = ln
+					break
+				}
+				e, err := parser.ParseExpr(strings.TrimSpace(ln[eq+1:]))
+				if err != nil {
+					bad = ln
+					break
+				}
+				got[strings.TrimSpace(ln[:eq])] = canonExpr(e)
+			}
+			wantM := map[string]string{}
+			for _, l := range lines {
+				lc := strings.ToLower(l.name)
+				if (lc == "mytype" && myType != "") || (lc == "targettype" && targetType != "") {
+					continue
+				}
+				if e, err := parser.ParseExpr(l.text); err == nil {
+					wantM[l.name] = canonExpr(e)
+				}
+			}
+			if myType != "" {
+				wantM["MyType"] = "str:" + hexOrDash([]byte(myType))
+			}
+			if targetType != "" {
+				wantM["TargetType"] = "str:" + hexOrDash([]byte(targetType))
+			}
+			// an attribute named like a type trailer is overridden by the trailer line that follows it
+			for k := range got {
+				lc := strings.ToLower(k)
+				if k != "MyType" && lc == "mytype" && myType != "" || k != "TargetType" && lc == "targettype" && targetType != "" {
+					delete(got, k)
+				}
+			}
+			if bad != "" || showAdMap(got) != showAdMap(wantM) {
+				w.violate("C08:raw-text-differs", label+": the text GetClassAdRaw returned does not read back as the sender's attributes", ops, showAdMap(wantM), showAdMap(got)+" "+strconv.QuoteToASCII(truncStr(bad, 120)))
+			}
+		} else if g.raw != want.String() {
 			w.violate("C08:raw-text-differs", label+": GetClassAdRaw did not return the sender's rendered expression strings", ops, strconv.QuoteToASCII(truncStr(want.String(), 300)), strconv.QuoteToASCII(truncStr(g.raw, 300)))
 		}
 	}
